@@ -80,6 +80,12 @@ def ordinal_key(fn, nodes, node):
     return -1
 
 
+def is_entry_order(cmp_name, order):
+    """Entry order = document order of states: `state_entry_order(a, b)` (a one-line wrapper) or `state_document_order(a, b)` itself;
+    both comparator tables are evaluated by C02 R02.2."""
+    return cmp_name in ("state_entry_order", "state_document_order") and tuple(order or ()) == (0, 1)
+
+
 def site_key(fn, what, ordinal=0):
     return "%s|%s|%d" % (fn.path, what, ordinal)
 
